@@ -1,6 +1,7 @@
 import CatiiProofs.KernTop
 import CatiiProofs.KernManyBounds
 import CatiiProofs.KernGenBridge
+import CatiiProofs.KernManyGenBridge
 /-!
 # C09 — the kernels never touch memory outside their buffers
 
@@ -71,6 +72,14 @@ theorem generated_kernels_in_bounds (junk : Nat → Nat) (L R : Array Nat) :
   obtain ⟨o3, h3⟩ := difference_in_bounds L R
   obtain ⟨f1, f2, f3⟩ := output_fits L R
   exact ⟨⟨o1, h1, f1 o1 h1⟩, ⟨o2, h2, f2 o2 h2⟩, ⟨o3, h3, f3 o3 h3⟩⟩
+
+/-- the k-way union REGENERATED from the current source: for EVERY list of arrays every read of `pointers[arrnum]`,
+`limits[arrnum]`, `values[ptr]` and every write `pointers[arrnum] = ptr + 1`, `result_view[result_len] = min_value` is inside its
+array, the result is no longer than the concatenation, and `len(values) + 1` rounds are enough (the fuel is never exhausted) -/
+theorem generated_union_many_in_bounds (junk : Nat → Nat) (arrays : List (Array Nat)) :
+    ∃ out, KernGen.set_union_merge_many junk ((concatAll (arrays.filter fun a => a.size ≠ 0)).size + 1) arrays = .ok out ∧
+      out.size ≤ ((arrays.map Array.toList).filter (· ≠ [])).flatten.length := by
+  rw [gen_union_many_eq]; exact union_many_in_bounds arrays
 
 theorem wrappers_in_bounds (l r : Option (Array Nat)) :
     (∃ a, intersectionW l r = .ok a) ∧ (∃ a, unionW l r = .ok a) ∧ (∃ a, differenceW l r = .ok a) := by
